@@ -346,13 +346,14 @@ func cmdCheck(args []string) int {
 		}
 	}
 	Discharge(claimed, dir, timeout, 16, true)
-	// An obligation that comes back undecided WITHOUT a candidate model is, on a loaded machine,
-	// usually a solver time-out: it is tried once more with three times the budget and fewer
-	// queries in flight before anything is reported about it.
+	// An obligation that comes back undecided (no proof, and no model of the full hypotheses - a
+	// candidate model of the quantifier-free part decides nothing) may be a solver time-out on a
+	// loaded machine: it is tried once more with three times the budget and fewer queries in flight
+	// before anything is reported about it.
 	{
 		var again []*Obligation
 		for _, o := range claimed {
-			if o.Status == "unknown" && o.Model == "" && o.Kind != "vacuity" && !strings.HasPrefix(o.Output, "VC too large") {
+			if o.Status == "unknown" && o.Kind != "vacuity" && !strings.HasPrefix(o.Output, "VC too large") {
 				again = append(again, o)
 			}
 		}
